@@ -10,6 +10,7 @@
 package main
 
 import (
+	"bufio"
 	"bytes"
 	"context"
 	"crypto/sha256"
@@ -26,11 +27,11 @@ import (
 	"github.com/itchio/lake"
 	"github.com/itchio/lake/pools/fspool"
 	"github.com/itchio/lake/tlc"
-	"github.com/itchio/wharf/wsync"
 	"github.com/itchio/savior/seeksource"
 	"github.com/itchio/wharf/bsdiff"
 	"github.com/itchio/wharf/pwr"
 	"github.com/itchio/wharf/pwr/rediff"
+	"github.com/itchio/wharf/wsync"
 
 	"github.com/golang/protobuf/proto"
 
@@ -52,7 +53,7 @@ type Scenario struct {
 	NewSpec    string   `json:"newspec,omitempty"`
 	FailAt     int      `json:"failat,omitempty"` // diff: the source reader fails at its FailAt-th Read call (1-based)
 	BigSig     int      `json:"bigsig,omitempty"` // diff: synthetic old signature of this many blocks (contents A,B,C repeating)
-	Cap        int      `json:"cap,omitempty"` // scheduler variant: capacity replacing the scanner's 256-slot channels
+	Cap        int      `json:"cap,omitempty"`    // scheduler variant: capacity replacing the scanner's 256-slot channels
 	Partitions int      `json:"partitions,omitempty"`
 	Conc       int      `json:"conc,omitempty"`
 	Bound      int      `json:"bound"`
@@ -71,6 +72,7 @@ type slicingPool struct {
 
 type slicingReader struct {
 	r      io.Reader
+	br     *bufio.Reader
 	choose chooser
 	failAt int
 	reads  *int
@@ -95,7 +97,20 @@ func (s *slicingReader) Read(p []byte) (int, error) {
 			}
 		}
 	}
-	return s.r.Read(p)
+	if s.choose == nil {
+		return s.r.Read(p)
+	}
+	if s.br == nil {
+		s.br = bufio.NewReaderSize(s.r, 64*1024)
+	}
+	n, err := s.br.Read(p)
+	if err == nil && n > 0 {
+		// the read that delivers the last bytes may report the end at once
+		if _, perr := s.br.Peek(1); perr == io.EOF && s.choose(2, "eof-with-data") == 1 {
+			err = io.EOF
+		}
+	}
+	return n, err
 }
 
 func (s *slicingPool) GetReader(i int64) (io.Reader, error) {
@@ -347,7 +362,7 @@ func main() {
 	runner.Main(runner.Config{
 		ID:    "C15",
 		Level: "model_checking",
-		Rule: "stateless model checking of the real differ (WritePatch: diff, sign and reader goroutines over pipes), of the bsdiff scanner (workers, dispatcher, collector) and of the optimizer under a controlled scheduler: preemption-bounded DFS with happens-before caching over goroutine interleavings, select choices, map iteration orders and source-reader short reads; oracle: output bytes (patch, signature, counters / control messages / optimized patch and mappings) equal those of the default schedule, no deadlock. Separate detector pass: the same bodies free-running under the Go race detector with GOMAXPROCS 1,2,4,16. Non-trivial = scenario with at least 3 goroutines alive at once.",
+		Rule:  "stateless model checking of the real differ (WritePatch: diff, sign and reader goroutines over pipes), of the bsdiff scanner (workers, dispatcher, collector) and of the optimizer under a controlled scheduler: preemption-bounded DFS with happens-before caching over goroutine interleavings, select choices, map iteration orders and source-reader short reads; oracle: output bytes (patch, signature, counters / control messages / optimized patch and mappings) equal those of the default schedule, no deadlock. Separate detector pass: the same bodies free-running under the Go race detector with GOMAXPROCS 1,2,4,16. Non-trivial = scenario with at least 3 goroutines alive at once.",
 		Assumptions: []string{
 			"code between visible operations is atomic under the scheduler; unsynchronised accesses are only caught by the race-detector pass, which is a detector, not an enumeration",
 			"io.Pipe is modelled atomically (a Write blocks until consumed or closed), all other primitives at their real call sites",
